@@ -5,3 +5,4 @@ SPECIFICATION Spec
 INVARIANT OnlyCacheableStored
 INVARIANT StoredValuesWellFormed
 INVARIANT PrintHistory
+PROPERTY OnlyOwnEntryChanges
